@@ -20,6 +20,7 @@ from __future__ import annotations
 import ast
 
 from ..fnview import FnView
+from .. import ctx
 from .. import paths
 from ..cfg import CFG
 from ..pattern import canon, match
@@ -52,6 +53,7 @@ def check(run, project):
     l4(run, mod, fns, project)
     l5(run, mod, fns)
     l7(run, mod, fns, project)
+    l8(run, mod, fns, project)
     from .shared import unbound_locals
     unbound_locals(run, project, "L6", (MAIN, "tpmstream.common.canonical"), what="a traceback instead of the command's output")
     from .shared import undefined_names
@@ -472,6 +474,46 @@ def l4(run, mod, fns, project):
             run.ob("L4", ok, "each candidate is decoded strictly and completely, and reported with its command code",
                    f"Canonical(...) arguments changed: the candidate is tried as {got_args} and reported with `{code_txt}`, required "
                    f"{want_args} reported with `{cc}`", module=mod, node=ib.node or fn, func=fn.name, construct="parse_all_types Canonical")
+
+
+def l8(run, mod, fns, project):
+    """command names: `cc_name(code)` is the member's name for every member of TPM_CC - the name a user types for
+    `--command` / `example` and the keys of the tables the command line looks names up in.  The function is folded over
+    all members (the text form of a member is `TPM_CC.<name>`: C16-O4) by the mini interpreter."""
+    from ..minieval import Imprecise, Interp, NeedBit, Raised, TypeRef
+    fn = fns.get("cc_name")
+    if fn is None:
+        run.info("L8: cc_name not found; the command-name fold is not applied")
+        return
+    L = ctx.layout(project)
+    members = [nm for nm in L.TPM_CC.members]
+    run.require(len(members) >= 100, f"L8: only {len(members)} members of TPM_CC")
+
+    class Member:
+        def __init__(self, name):
+            self.name = name
+
+        def __str__(self):
+            return f"TPM_CC.{self.name}"
+
+        def __format__(self, spec):
+            return format(str(self), spec)
+    bad = []
+    for nm in members:
+        it = Interp({"TPM_CC": TypeRef("TPM_CC"), "str": lambda x: str(x), "len": len, "repr": lambda x: str(x), "format": format},
+                    module_tree=mod.tree, max_steps=20000)
+        try:
+            got = it.call(fn, [Member(nm)])
+        except Raised as r:
+            got = f"raises {r.cls}"
+        except (NeedBit, Imprecise, AnalysisError) as ex:
+            raise AnalysisError(f"L8: cc_name could not be folded ({str(ex)[:100]})")
+        if got != nm:
+            bad.append((nm, got))
+    run.ob("L8", not bad, f"cc_name gives the member's name for all {len(members)} command codes",
+           f"cc_name is wrong for {len(bad)} of {len(members)} command codes, e.g. " + ", ".join(f"{a} -> {b!r}" for a, b in bad[:5])
+           + ": these commands cannot be named on the command line (refused as unknown) and are listed under wrong names",
+           module=mod, node=fn, func="cc_name", construct="cc_name")
 
 
 def l7(run, mod, fns, project):
